@@ -30,7 +30,28 @@ pub enum T01 {
     Borrowed,
     /// a target whose Deserialize impl returns Ok without touching the deserializer
     NoOp,
+    /// recursive struct with three dozen optional fields next to the recursive one: its derived visitor
+    /// has a large stack frame per nesting level
+    DeepWide,
 }
+
+macro_rules! wide_struct {
+    ($($f:ident),*) => {
+        #[derive(Debug, Deserialize)]
+        #[allow(dead_code)]
+        struct W {
+            #[serde(default)]
+            k: Option<Box<W>>,
+            #[serde(default)]
+            v: Option<i64>,
+            $(#[serde(default)] $f: Option<i64>,)*
+        }
+    };
+}
+wide_struct!(
+    f01, f02, f03, f04, f05, f06, f07, f08, f09, f10, f11, f12, f13, f14, f15, f16, f17, f18, f19, f20, f21, f22, f23, f24, f25, f26, f27, f28,
+    f29, f30, f31, f32, f33
+);
 
 /// serde allows a `Deserialize` impl to ignore its input; the entry points must still terminate.
 #[derive(Debug)]
@@ -513,6 +534,7 @@ pub fn exec(c: &TotalCase, st: &mut Stats) -> Vec<Viol> {
         T01::RcGraph => run_owned::<RcG>(c, st),
         T01::Borrowed => run_borrowed(c),
         T01::NoOp => run_owned::<NoOpT>(c, st),
+        T01::DeepWide => run_owned::<W>(c, st),
     };
     if matches!(c.target, T01::Fam(Target::Cfg)) {
         obs.extend(run_valid(c));
@@ -815,7 +837,20 @@ const ALL_T01: [T01; 9] = [
 
 pub fn gen_case(tier: Tier, seed: u64, idx: u64) -> Case {
     let mut rng = Rng::for_case(seed, "C01", idx);
-    let _ = tier;
+    if idx + 1 == total(tier) {
+        // one probe, last in the run: block-nested mappings just under the default depth limit into the
+        // wide recursive struct (known finding F49: its frames do not fit into 8 MiB)
+        return Case::C01(TotalCase {
+            bytes: Doc::from_str(&deep_doc(11, 1999)),
+            target: T01::DeepWide,
+            opts: OptVec::default(),
+            chunking: Chunking::Whole,
+            faults: vec![],
+            nonsticky_eof_at: None,
+            closure_mode: 0,
+            origin: "deep kind=11 depth=1999 wide-struct".to_string(),
+        });
+    }
     if idx < n_probes() {
         // deep-nesting peers, default budget, one read
         let i = idx as usize;
